@@ -283,9 +283,16 @@ theorem single_aligner_total (s : List Chunk) : Aligner.single.run [s] = .ok [s]
 theorem exhaust_aligner_total (s : List Chunk) : Aligner.exhaust.run [s] = .ok [concatAll s] := rfl
 
 /-- a single-dependency row-wise / filtering node never fails, whatever stream arrives -/
-theorem map_node_total (n : Node) (g : Row → Option Row) (out : String) (ha : n.aligner = Aligner.single)
-    (hk : n.kernel = mapKernel g out) (s : List Chunk) : n.step [s] = .ok [perChunk (List.filterMap g) out s] := by
-  simp [Node.step, ha, hk, Aligner.single, singleRun, mapKernel]
+theorem map_node_total (n : Node) (g : Row → Option Row) (out : String) (labels : List (String × Option String))
+    (ha : n.aligner = Aligner.single) (hk : n.kernel = restamp labels (mapKernel g out)) (s : List Chunk) :
+    ∃ o, n.step [s] = .ok [o] := by
+  cases labels with
+  | nil => exact ⟨perChunk (List.filterMap g) out s, by
+      simp [Node.step, ha, hk, Aligner.single, singleRun, mapKernel, restamp, stampAll]⟩
+  | cons p ps =>
+    obtain ⟨a, b⟩ := p
+    exact ⟨(perChunk (List.filterMap g) out s).map (restampChunk a (b.getD (kindOfIns [s]))), by
+      simp [Node.step, ha, hk, Aligner.single, singleRun, mapKernel, restamp, stampAll]⟩
 
 /-- an exhaust node never fails: its aligner hands over ONE chunk (the second call, `RuntimeError`, cannot happen);
 NB the exhaust KERNEL alone is not total on all aligned inputs -/
@@ -412,7 +419,7 @@ theorem vocab_content (vg : List Vocab.VNode) (a2 : Vocab.VNode → Aligner) (pl
     have harity := this htopo _ hmem
     simp only [Vocab.toNode, hout, List.length_nil] at harity
     cases hk : n.kind <;> simp [hk, Vocab.kernelOf, mapKernel, mergeKernel, pairKernel, firstKernel, loopKernel,
-      overlapKernel, streamKernel, downKernel, exhaustKernel, restamp] at harity
+      overlapKernel, streamKernel, downKernel, exhaustKernel, restamp, Vocab.rawKernelOf] at harity
 
 /-! ## 7. non-vacuity: concrete instances of every hypothesis -/
 
@@ -577,14 +584,16 @@ theorem example_correct :
         simpa [exPlan, Vocab.toNode, Vocab.out0, this] using rechunk_totalOn_plain
       · intro ins hlen _
         obtain ⟨s, rfl⟩ := List.length_eq_one_iff.mp (by simpa [Vocab.toNode] using hlen)
-        exact ⟨_, map_node_total _ (Vocab.gMap 1) "t2" rfl rfl s, rfl, by intro p hp; simp [Vocab.toNode] at hp; subst hp; simp [exP]⟩
+        obtain ⟨o, ho⟩ := map_node_total (Vocab.toNode exIter ⟨.map 1, ["t1"], ["t2"]⟩) (Vocab.gMap 1) "t2" _ rfl rfl s
+        exact ⟨[o], ho, rfl, by intro p hp; simp [Vocab.toNode] at hp; subst hp; simp [exP]⟩
     · -- t3 = filter(t2)
       refine ⟨Vocab.kernelOf_hom _ _ rfl, node_total_of_edges _ (0, 14) exP exP _ ?_ ?_⟩
       · intro d _
         exact ident_totalOn _
       · intro ins hlen _
         obtain ⟨s, rfl⟩ := List.length_eq_one_iff.mp (by simpa [Vocab.toNode] using hlen)
-        exact ⟨_, map_node_total _ (Vocab.gFilter 2 0) "t3" rfl rfl s, rfl, by intro p hp; simp [Vocab.toNode] at hp; subst hp; simp [exP]⟩
+        obtain ⟨o, ho⟩ := map_node_total (Vocab.toNode exIter ⟨.filter 2 0, ["t2"], ["t3"]⟩) (Vocab.gFilter 2 0) "t3" _ rfl rfl s
+        exact ⟨[o], ho, rfl, by intro p hp; simp [Vocab.toNode] at hp; subst hp; simp [exP]⟩
 
 /-- … and its conclusion evaluated: whatever environment `exec` returns (the rechunker does not even have to be run
 to know this), `t3` carries exactly the ids of the whole-run computation, which is what the driver's `c01.whole`
